@@ -1,6 +1,7 @@
 package filersim
 
 import (
+	"runtime/debug"
 	"context"
 	"fmt"
 	"os"
@@ -161,7 +162,7 @@ func (s *sess) sut(f func() error) (err error, run *runaway) {
 				run = &rw
 				return
 			}
-			panic(p)
+			simkit.Reclassify(s.r, p, string(debug.Stack()))
 		}
 	}()
 	s.n.st.beginOp()
@@ -473,7 +474,14 @@ func (s *sess) doLink(st *simkit.Step) {
 	p, q := st.Str("p"), st.Str("q")
 	before := s.model
 	src := before.nodes[p]
-	if src == nil || src.s.IsDir || before.nodes[q] != nil || !before.isDir(parentOf(q)) {
+	// lnover: a client that links onto an EXISTING file name without unlinking it first (the filer API
+	// allows it and handleUpdateToHardLinks has a branch for it); otherwise only what the kernel lets through
+	over := false
+	if qn := before.nodes[q]; qn != nil && src != nil && !src.s.IsDir && !qn.s.IsDir && p != q &&
+		s.r.Plan.C("lnover") == 1 && s.gc == nil && (qn.link == nil || qn.link != src.link) {
+		over = true
+	}
+	if src == nil || src.s.IsDir || (before.nodes[q] != nil && !over) || !before.isDir(parentOf(q)) {
 		s.r.Log("link %s -> %s skipped (kernel would refuse: %s -> %s)", p, q, before.shape(p), before.shape(q))
 		return
 	}
@@ -503,6 +511,17 @@ func (s *sess) doLink(st *simkit.Step) {
 		// divergence that the per-step comparison has already reported or accepted
 		s.r.Log("link %s -> %s skipped (entry carries link id %x unknown to the model)", p, q, old.HardLinkId)
 		return
+	}
+	if over {
+		// the overwritten name leaves its own link group (if any); the group's record goes with its last name
+		if ql := after.nodes[q].link; ql != nil {
+			delete(ql.names, q)
+			if len(ql.names) == 0 {
+				delete(after.links, ql.id)
+			}
+		}
+		s.r.Probe("link-over-existing-name")
+		s.r.Abs("lnover")
 	}
 	l.names[q] = true
 	after.nodes[q] = &mnode{s: &snap{Path: q}, link: l}
